@@ -6,7 +6,7 @@
     BITS_PER_PIXEL_PER_BUFFER, [aliases] = the 27 shipped [Display] aliases with their BYTECOUNT.
     [(n + 7) / 8] is written out; it is the least number of bytes holding [n] bits. *)
 From Coq Require Import List NArith ZArith Bool Lia.
-From EPD Require Import Pure.Color Pure.Graphics Pure.GraphicsProofs Pure.GraphicsProofs2
+From EPD Require Import Ops Panels Pure.Color Pure.Graphics Pure.GraphicsProofs Pure.GraphicsProofs2
                         Pure.SizingProofs Pure.Aliases.
 Import ListNotations.
 Open Scope N_scope.
@@ -114,6 +114,17 @@ Example C13_witness_tri_alias :
   a_ct (mkAlias 122 250 false (buffer_len 122 250 * 2) CtTri) = CtTri.
 Proof. split; [|reflexivity]. unfold aliases. cbn [In]. do 6 right. left. reflexivity. Qed.
 
+(** "Every shipped panel buffer type has exactly the dimensions its driver reports": the k-th alias of
+    [Pure/Aliases.v] has the WIDTH and HEIGHT that the k-th driver model returns from width() / height(), for
+    all 27 drivers and every feature set.  (The driver models' WIDTH / HEIGHT are tied to the crate by the
+    width / height calls of the correspondence scripts, the alias constants by the sizing queries.) *)
+Definition alias_matches_driver (ft : feat) : bool :=
+  (Nat.eqb (length aliases) (length all_panels)) &&
+  forallb (fun ap => (a_w (fst ap) =? d_W (driver_of ft (snd ap))) && (a_h (fst ap) =? d_H (driver_of ft (snd ap))))
+          (combine aliases all_panels).
+Theorem C13_alias_dimensions_are_the_drivers : forall v2 alt, alias_matches_driver (mkFeat v2 alt) = true.
+Proof. intros [|] [|]; vm_compute; reflexivity. Qed.
+
 Print Assumptions C13_ceil8_least.
 Print Assumptions C13_ceil8_padding.
 Print Assumptions C13_buffer_len_exact.
@@ -130,3 +141,4 @@ Print Assumptions C13_accepted_buffer_drawable.
 Print Assumptions C13_last_pixel_last_byte.
 Print Assumptions C13_aliases.
 Print Assumptions C13_aliases_count.
+Print Assumptions C13_alias_dimensions_are_the_drivers.
